@@ -1,6 +1,18 @@
 package main
 
-// Property-specific additions to the generic contract check (stand-ins, cross-file checks).
+// Property-specific additions to the generic contract check (labelled stand-ins, cross-file checks).
+
+import (
+	"bytes"
+	"context"
+	"encoding/json"
+	"fmt"
+	"os"
+	"os/exec"
+	"path/filepath"
+	"strings"
+	"time"
+)
 
 type ExtraResult struct {
 	Obls        []*Obl
@@ -14,5 +26,162 @@ type ExtraResult struct {
 
 func runExtras(prop string, u *Universe, opt *Options) *ExtraResult {
 	r := &ExtraResult{Coverage: map[string]interface{}{}}
+	switch prop {
+	case "C16":
+		extraC16(u, opt, r)
+	}
 	return r
+}
+
+// runOverlayTest runs an in-package Go test injected with -overlay (nothing is written to /repo).
+func runOverlayTest(pkgDir, fileName, src, runPattern string, timeout time.Duration) (string, error) {
+	scratch, err := os.MkdirTemp("", "govc-overlay-")
+	if err != nil {
+		return "", err
+	}
+	defer os.RemoveAll(scratch)
+	testFile := filepath.Join(scratch, "x_test.go")
+	os.WriteFile(testFile, []byte(src), 0o644)
+	ov := map[string]map[string]string{"Replace": {filepath.Join(pkgDir, fileName): testFile}}
+	ovb, _ := json.Marshal(ov)
+	ovFile := filepath.Join(scratch, "ov.json")
+	os.WriteFile(ovFile, ovb, 0o644)
+	ctx, cancel := context.WithTimeout(context.Background(), timeout+30*time.Second)
+	defer cancel()
+	cmd := exec.CommandContext(ctx, "go", "test", "-overlay", ovFile, "-vet=off", "-count=1", "-timeout", fmt.Sprint(timeout), "-run", runPattern, "-v", ".")
+	cmd.Dir = pkgDir
+	cmd.Env = append(os.Environ(), "GOFLAGS=-mod=mod", "GOPROXY=off", "GOSUMDB=off", "GOTOOLCHAIN=local")
+	var buf bytes.Buffer
+	cmd.Stdout = &buf
+	cmd.Stderr = &buf
+	err = cmd.Run()
+	return buf.String(), err
+}
+
+// extraC16: the BCH distance fact behind C16 (no error pattern of weight 1..4 inside a window of 89
+// consecutive 5-bit symbols has a zero syndrome) is beyond the SMT solvers for weights 3 and 4. It is
+// established by a complete enumeration that drives the real bech32Polymod: a labelled stand-in,
+// exhaustive for this finite lemma but computation, not deduction.
+func extraC16(u *Universe, opt *Options, r *ExtraResult) {
+	window := 89
+	src := `package bech32
+
+import (
+	"fmt"
+	"os"
+	"testing"
+)
+
+// syndrome of error value e (1..31) at distance p (0 = last symbol) from the end, through the real
+// bech32Polymod: polymod(x ^ err) ^ polymod(x) with x = all zeros of length n.
+func govcSyndromes(n int) [][]int {
+	zero := make([]byte, n)
+	base := bech32Polymod(zero)
+	s := make([][]int, n)
+	for p := 0; p < n; p++ {
+		s[p] = make([]int, 32)
+		for e := 1; e < 32; e++ {
+			v := make([]byte, n)
+			v[n-1-p] = byte(e)
+			s[p][e] = bech32Polymod(v) ^ base
+		}
+	}
+	return s
+}
+
+func govcBCH(n int) (patterns int, zero [][4][2]int) {
+	s := govcSyndromes(n)
+	type pe struct{ p, e int }
+	// weight 1
+	single := map[int]pe{}
+	for p := 0; p < n; p++ {
+		for e := 1; e < 32; e++ {
+			patterns++
+			if s[p][e] == 0 {
+				zero = append(zero, [4][2]int{{p, e}})
+			}
+			if q, dup := single[s[p][e]]; dup && q.p != p {
+				// weight 2 zero syndrome
+				zero = append(zero, [4][2]int{{p, e}, {q.p, q.e}})
+			}
+			single[s[p][e]] = pe{p, e}
+		}
+	}
+	// pairs
+	type pr struct{ p1, e1, p2, e2 int }
+	pairs := map[int][]pr{}
+	for p1 := 0; p1 < n; p1++ {
+		for p2 := p1 + 1; p2 < n; p2++ {
+			for e1 := 1; e1 < 32; e1++ {
+				for e2 := 1; e2 < 32; e2++ {
+					patterns++
+					x := s[p1][e1] ^ s[p2][e2]
+					if x == 0 {
+						zero = append(zero, [4][2]int{{p1, e1}, {p2, e2}})
+					}
+					// weight 3: pair + single at a third position
+					if q, ok := single[x]; ok && q.p != p1 && q.p != p2 {
+						zero = append(zero, [4][2]int{{p1, e1}, {p2, e2}, {q.p, q.e}})
+					}
+					// weight 4: two disjoint pairs with equal sums
+					for _, o := range pairs[x] {
+						if o.p1 != p1 && o.p1 != p2 && o.p2 != p1 && o.p2 != p2 {
+							zero = append(zero, [4][2]int{{p1, e1}, {p2, e2}, {o.p1, o.e1}, {o.p2, o.e2}})
+						}
+					}
+					pairs[x] = append(pairs[x], pr{p1, e1, p2, e2})
+				}
+			}
+		}
+	}
+	return
+}
+
+func TestGovcBCH(t *testing.T) {
+	n := %d
+	pat, zero := govcBCH(n)
+	fmt.Fprintf(os.Stdout, "\nGOVC-BCH window=%%d singles_and_pairs=%%d zero=%%d\n", n, pat, len(zero))
+	for i, z := range zero {
+		if i < 5 {
+			fmt.Fprintf(os.Stdout, "GOVC-BCH-ZERO %%v\n", z)
+		}
+	}
+}
+`
+	pkgDir := filepath.Join(opt.Repo, "pkg", "bech32")
+	run := func(w int) (patterns, zeros int, out string, ok bool) {
+		o, _ := runOverlayTest(pkgDir, "zz_govc_bch_test.go", fmt.Sprintf(src, w), "^TestGovcBCH$", 10*time.Minute)
+		for _, l := range strings.Split(o, "\n") {
+			if strings.HasPrefix(l, "GOVC-BCH window=") {
+				var ww int
+				if _, err := fmt.Sscanf(l, "GOVC-BCH window=%d singles_and_pairs=%d zero=%d", &ww, &patterns, &zeros); err == nil {
+					ok = true
+				}
+			}
+		}
+		return patterns, zeros, o, ok
+	}
+	t0 := time.Now()
+	pat, zeros, out, ok := run(window)
+	st := map[string]interface{}{"name": "bch_distance_5_window_89", "bound": "all error patterns of weight 1..4 over 89 consecutive symbols (31 non-zero values each), by meet-in-the-middle over all single-symbol syndromes and all two-symbol sums computed with the real bech32Polymod",
+		"exhaustive": true, "enumerated_singles_and_pairs": pat, "zero_syndromes": zeros, "time_s": time.Since(t0).Seconds()}
+	r.Coverage["bounded_standins"] = []interface{}{st}
+	r.Level = "other"
+	r.Explanation = "mixed: (1) deductive part, discharged by SMT: GF(2)-linearity of the BIP-173 polymod step (lemma pm_linear), the same-kind lemma for human-readable-part characters, and the C04 contract of Decode (accept => polymod over expand(lower(hrp)) ++ data == 1, proved for all strings); together they reduce C16 to the finite statement that no error pattern of weight 1..4 within 89 consecutive symbols has syndrome 0. (2) that finite statement is checked by a complete enumeration through the real bech32Polymod (bounded stand-in, exhaustive for the lemma, labelled as computation rather than deduction; not counted under discharged)."
+	if !ok {
+		r.Violations = append(r.Violations, "UNDECIDED-C16 enumeration did not run: "+truncate(out, 400))
+		return
+	}
+	if zeros > 0 {
+		path := filepath.Join(opt.Verif, "replays", "C16", "bch_zero_syndrome.json")
+		os.MkdirAll(filepath.Dir(path), 0o755)
+		data, _ := json.MarshalIndent(map[string]interface{}{"property": "C16", "obligation": "standin.bch_distance_5_window_89", "verdict": "error patterns of weight <= 4 with zero syndrome exist: replacing these symbols of a valid string gives another string with a valid checksum", "output": out}, "", " ")
+		os.WriteFile(path, data, 0o644)
+		r.Violations = append(r.Violations, fmt.Sprintf("VIOLATION property=C16 replay=%s obligation=standin.bch_distance_5_window_89", path))
+	}
+	if opt.Tier == "thorough" {
+		// sanity of the enumerator: at window 90 weight-4 zero syndromes exist (BIP-173's length limit)
+		_, z90, _, ok90 := run(90)
+		r.Coverage["standin_selfcheck"] = map[string]interface{}{"window": 90, "zero_syndromes_found": z90, "ran": ok90, "expected": "> 0: shows the enumeration can fail and that 89 is the exact limit"}
+	}
 }
